@@ -40,6 +40,9 @@ pub struct SchedCfg {
     pub stall: Option<(u32, u64)>,
     /// wall clock steps: at the end of cycle k the wall-clock offset changes by delta ns
     pub wall_steps: Vec<(u32, i64)>,
+    /// slow reporter: the k-th report() call takes this many ns (the collector lock is held)
+    #[serde(default)]
+    pub report_stall: Option<(u32, u64)>,
 }
 
 impl SchedCfg {
@@ -55,6 +58,7 @@ impl SchedCfg {
             max_steps: 40_000,
             stall: None,
             wall_steps: vec![],
+            report_stall: None,
         }
     }
 }
